@@ -1,5 +1,190 @@
-import Rtcm.Model.Names
-import Rtcm.Model.Socket
-import Rtcm.Gen.Tables
+import Rtcm.Lemmas.ReaderItems
+import Rtcm.Props.C02
+/-
+  C05 — a damaged frame costs exactly that frame; error modes differ only in reporting.
+-/
 namespace Rtcm
+
+/-- one frame of the stream: undamaged (`good`) or with bits flipped behind the 3-byte header
+    (`bad f e`: the frame `f` XOR the error pattern `0 0 0 ++ e`) -/
+inductive DFrame
+  | good (f : Bytes)
+  | bad (f e : Bytes)
+
+def DFrame.bytes : DFrame → Bytes
+  | .good f => f
+  | .bad f e => xorBytes f ([0, 0, 0] ++ e)
+
+/-- the frame is valid (framed, checksum correct, parses); damage has the frame's length and is a
+    pattern the CRC detects (C08: 1–3 flipped bits, any odd number, bursts ≤ 24 bits, …) -/
+def DFrame.Valid (T : Tables) (o : Opts) : DFrame → Prop
+  | .good f => Framed f ∧ ∃ m, parse T f o.validate o.label = .ok m
+  | .bad f e => Framed f ∧ calcCrc24q f = 0 ∧ e.length + 3 = f.length ∧ calcCrc24q ([0, 0, 0] ++ e) ≠ 0
+
+theorem xorBytes_append (a b c d : Bytes) (h : a.length = c.length) :
+    xorBytes (a ++ b) (c ++ d) = xorBytes a c ++ xorBytes b d := by
+  simp [xorBytes, List.zipWith_append, h]
+
+/-- damage behind the header leaves the frame framed: same preamble, same length field, same size -/
+theorem damaged_framed (f e : Bytes) (hf : Framed f) (hl : e.length + 3 = f.length) :
+    Framed (xorBytes f ([0, 0, 0] ++ e)) := by
+  obtain ⟨hi, lo, p, c, rfl, hhi, hp, hc⟩ := hf.shape
+  have hlen : e.length = p.length + c.length := by simp at hl; omega
+  refine ⟨⟨hi, lo, xorBytes p (e.take p.length), xorBytes c (e.drop p.length), ?_, hhi, ?_, ?_⟩⟩
+  · have e1 : ([0xd3, hi, lo] ++ p ++ c : Bytes) = [0xd3, hi, lo] ++ (p ++ c) := by simp
+    rw [e1, xorBytes_append [0xd3, hi, lo] (p ++ c) [0, 0, 0] e (by simp)]
+    have e2 : e = e.take p.length ++ e.drop p.length := (List.take_append_drop _ _).symm
+    conv => lhs; rw [e2]
+    rw [xorBytes_append _ _ _ _ (by simp [List.length_take]; omega)]
+    simp [xorBytes]
+  · rw [xorBytes_length _ _ (by simp [List.length_take]; omega), hp]
+  · rw [xorBytes_length _ _ (by simp [List.length_drop]; omega), hc]
+
+theorem DFrame.item_valid (T : Tables) (o : Opts) (d : DFrame) (h : d.Valid T o) : (SItem.frame d.bytes).Valid T := by
+  cases d with
+  | good f => exact h.1
+  | bad f e => exact damaged_framed f e h.1 h.2.2.1
+
+/-- with validation on, a damaged frame is rejected with a parse error (C08) -/
+theorem damaged_parse (T : Tables) (o : Opts) (f e : Bytes) (hv : o.validate &&& T.valcksum ≠ 0)
+    (h : (DFrame.bad f e).Valid T o) : parse T (DFrame.bad f e).bytes o.validate o.label = .lib .parse := by
+  obtain ⟨_, hcrc, hl, hdet⟩ := h
+  unfold parse DFrame.bytes
+  rw [if_pos ⟨hv, by rw [crc_damaged f _ (by simp; omega) hcrc]; exact hdet⟩]
+
+/-- the events of one frame of the stream under the reader's error mode -/
+def DFrame.events (T : Tables) (o : Opts) : DFrame → List Event
+  | .good f => match parse T f o.validate o.label with
+    | .ok m => [.frame f (some m)]
+    | _ => []
+  | .bad _ _ => errEvents T o .parse
+
+/-- **Main theorem**: the exact event sequence.  For every stream of valid frames, every subset
+    damaged in a detectable way, and every error mode: each good frame yields itself, each damaged
+    frame yields only its error report (nothing / one handler call / one raised parse error), in
+    stream order, and the iteration then stops cleanly.  The damaged frame consumed exactly its own
+    bytes: the frames behind it are found where they are. -/
+theorem C05_event_sequence (o : Opts) (ds : List DFrame) (hp : o.parsed = true)
+    (hv : o.validate &&& T2.valcksum ≠ 0) (hd : ∀ d ∈ ds, d.Valid T2 o) :
+    run fileOps T2 o true (fs (ds.map DFrame.bytes).flatten) = (ds.map (DFrame.events T2 o)).flatten ++ [.stop] := by
+  have hitems := run_items T2 C02_reader_consts o (ds.map fun d => SItem.frame d.bytes) (by
+    intro it hit
+    simp at hit
+    obtain ⟨d, hd', rfl⟩ := hit
+    exact DFrame.item_valid T2 o d (hd d hd'))
+  have e1 : streamOf (ds.map fun d => SItem.frame d.bytes) = (ds.map DFrame.bytes).flatten := by
+    simp [streamOf, SItem.bytes, Function.comp_def]
+  rw [e1] at hitems
+  rw [hitems]
+  simp only [expect, List.map_map]
+  congr 2
+  apply List.map_congr_left
+  intro d hdm
+  simp only [Function.comp, SItem.events, hp, if_true]
+  cases d with
+  | good f =>
+    obtain ⟨_, m, hm⟩ := hd _ hdm
+    simp [DFrame.bytes, DFrame.events, hm]
+  | bad f e =>
+    rw [damaged_parse T2 o f e hv (hd _ hdm)]
+    rfl
+
+def goods (T : Tables) (o : Opts) : List DFrame → List (Bytes × Option Msg)
+  | [] => []
+  | .good f :: rest => (match parse T f o.validate o.label with | .ok m => [(f, some m)] | _ => []) ++ goods T o rest
+  | .bad _ _ :: rest => goods T o rest
+
+def nbad : List DFrame → Nat
+  | [] => 0
+  | .good _ :: rest => nbad rest
+  | .bad _ _ :: rest => nbad rest + 1
+
+def countHandlers : List Event → Nat
+  | [] => 0
+  | .handler _ :: rest => countHandlers rest + 1
+  | _ :: rest => countHandlers rest
+
+def countRaised : List Event → Nat
+  | [] => 0
+  | .raised _ :: rest => countRaised rest + 1
+  | _ :: rest => countRaised rest
+
+theorem countHandlers_append (a b : List Event) : countHandlers (a ++ b) = countHandlers a + countHandlers b := by
+  induction a with
+  | nil => simp [countHandlers]
+  | cons e rest ih => cases e <;> simp [countHandlers, ih] <;> omega
+
+theorem countRaised_append (a b : List Event) : countRaised (a ++ b) = countRaised a + countRaised b := by
+  induction a with
+  | nil => simp [countRaised]
+  | cons e rest ih => cases e <;> simp [countRaised, ih] <;> omega
+
+theorem counts_of_events (o : Opts) (ds : List DFrame) :
+    let E := (ds.map (DFrame.events T2 o)).flatten
+    frames E = goods T2 o ds
+    ∧ (o.quitonerror = 0 → countHandlers E = 0 ∧ countRaised E = 0)
+    ∧ (o.quitonerror = T2.errLog → countHandlers E = nbad ds ∧ countRaised E = 0)
+    ∧ (o.quitonerror = T2.errRaise → countRaised E = nbad ds ∧ countHandlers E = 0) := by
+  have hlog : T2.errLog = 1 := by decide +kernel
+  have hraise : T2.errRaise = 2 := by decide +kernel
+  induction ds with
+  | nil => simp [frames, goods, countHandlers, countRaised, nbad]
+  | cons d rest ih =>
+    simp only at ih ⊢
+    simp only [List.map_cons, List.flatten_cons, frames_append, countHandlers_append, countRaised_append]
+    cases d with
+    | good f =>
+      simp only [DFrame.events, goods, nbad]
+      cases parse T2 f o.validate o.label with
+      | ok m =>
+        simp only [frames, countHandlers, countRaised, List.cons_append, List.nil_append, Nat.zero_add]
+        exact ⟨by rw [ih.1], ih.2⟩
+      | lib e =>
+        simp only [frames, countHandlers, countRaised, List.nil_append, Nat.zero_add]
+        exact ih
+      | foreign e =>
+        simp only [frames, countHandlers, countRaised, List.nil_append, Nat.zero_add]
+        exact ih
+    | bad f e =>
+      simp only [DFrame.events, goods, nbad, frames_errEvents, List.nil_append]
+      refine ⟨ih.1, ?_, ?_, ?_⟩
+      · intro h0
+        have := ih.2.1 h0
+        simp only [errEvents, if_pos h0, countHandlers, countRaised, Nat.zero_add]
+        exact this
+      · intro h1
+        have := ih.2.2.1 h1
+        have h0 : o.quitonerror ≠ 0 := by rw [h1, hlog]; decide
+        have h2 : o.quitonerror ≠ T2.errRaise := by rw [h1, hlog, hraise]; decide
+        simp only [errEvents, if_neg h0, if_neg h2, if_pos h1, countHandlers, countRaised]
+        omega
+      · intro h2
+        have := ih.2.2.2 h2
+        have h0 : o.quitonerror ≠ 0 := by rw [h2, hraise]; decide
+        simp only [errEvents, if_neg h0, if_pos h2, countHandlers, countRaised]
+        omega
+
+/-- the reader returns exactly the undamaged frames, in order, in all three modes; the error handler
+    is called once per damaged frame in log mode and never in ignore mode; in raise mode exactly one
+    parse error is raised per damaged frame (and the same reader keeps working afterwards) -/
+theorem C05_frames_and_reports (o : Opts) (ds : List DFrame) (hp : o.parsed = true)
+    (hv : o.validate &&& T2.valcksum ≠ 0) (hd : ∀ d ∈ ds, d.Valid T2 o) :
+    frames (run fileOps T2 o true (fs (ds.map DFrame.bytes).flatten)) = goods T2 o ds
+    ∧ (o.quitonerror = 0 → countHandlers (run fileOps T2 o true (fs (ds.map DFrame.bytes).flatten)) = 0
+        ∧ countRaised (run fileOps T2 o true (fs (ds.map DFrame.bytes).flatten)) = 0)
+    ∧ (o.quitonerror = T2.errLog → countHandlers (run fileOps T2 o true (fs (ds.map DFrame.bytes).flatten)) = nbad ds
+        ∧ countRaised (run fileOps T2 o true (fs (ds.map DFrame.bytes).flatten)) = 0)
+    ∧ (o.quitonerror = T2.errRaise → countRaised (run fileOps T2 o true (fs (ds.map DFrame.bytes).flatten)) = nbad ds
+        ∧ countHandlers (run fileOps T2 o true (fs (ds.map DFrame.bytes).flatten)) = 0) := by
+  rw [C05_event_sequence o ds hp hv hd]
+  have h := counts_of_events o ds
+  simp only at h
+  simp only [frames_append, countHandlers_append, countRaised_append, frames, countHandlers, countRaised,
+    List.append_nil, Nat.add_zero]
+  exact h
+
+/-- non-vacuity: a one-bit error pattern behind the header is a valid damage of a valid frame -/
+example : (DFrame.bad [0xd3, 0, 2, 0xff, 0xf0, 13, 77, 124] [0, 0x10, 0, 0, 0]).Valid T2 ⟨1, 1, 1, true⟩ := by
+  refine ⟨⟨⟨0, 2, [0xff, 0xf0], [13, 77, 124], rfl, by decide, by decide, by decide⟩⟩, by decide +kernel, by decide, by decide +kernel⟩
+
 end Rtcm
